@@ -390,6 +390,8 @@ func fixedPubCases() []pubCase {
 		{"x=p-1", ser(2, sub(p, bi(1)))},
 		{"x=p-1", ser(3, sub(p, bi(1)))},
 		{"x=p-2", ser(2, sub(p, bi(2)))},
+		{"small-x", ser(2, bi(44))}, // 2*(44, y) has tiny positive Jacobian coordinates
+		{"small-x", ser(3, bi(44))},
 		{"generator", refsecp.Compress(refsecp.G())},
 		{"generator-uncompressed-prefix", ser(4, refsecp.Gx)},
 	}
@@ -448,13 +450,19 @@ func checkPub(c pubCase, sec cipher.SecKey) {
 			}
 		} else if strings.HasPrefix(c.class, "valid(") || c.class == "small-x" {
 			// unusual but valid points: the product must be right too
-			var got []byte
-			want, rerr := refsecp.ECDH(c.b, sec[:])
-			if rerr == nil && guard("ECDH", "pubkey:"+c.class, in, func() { got, err = cipher.ECDH(raw, sec) }) {
-				if err != nil || !bytes.Equal(got, want) {
-					mismatch("value-mismatch", "ECDH", "pubkey:"+c.class, in, fmt.Sprint(err))
-				} else {
-					r.Count("ecdh.agree:special-point", 1)
+			h := sha(c.b)
+			h[0] &= 0x7f // below n
+			for _, k := range [][]byte{sec[:], b32(bi(4)), h} {
+				var got []byte
+				var ks cipher.SecKey
+				copy(ks[:], k)
+				want, rerr := refsecp.ECDH(c.b, k)
+				if rerr == nil && guard("ECDH", "pubkey:"+c.class, in+" sec="+hx(k), func() { got, err = cipher.ECDH(raw, ks) }) {
+					if err != nil || !bytes.Equal(got, want) {
+						mismatch("value-mismatch", "ECDH", "pubkey:"+c.class, in+" sec="+hx(k), fmt.Sprint(err))
+					} else {
+						r.Count("ecdh.agree:special-point", 1)
+					}
 				}
 			}
 		}
@@ -627,7 +635,10 @@ func pickR(g *rand.Rand) (string, *big.Int) {
 	case 5:
 		return "r=2^256-1", sub(two256, bi(1))
 	case 6:
-		return "r=1..16", bi(int64(1 + g.Intn(16)))
+		if g.Intn(4) == 0 {
+			return "r=small", bi(44) // x = 44: doubling (44, y) gives tiny positive Jacobian coordinates
+		}
+		return "r=small", bi(int64(1 + g.Intn(4096)))
 	case 7:
 		return "r=p-n-1", sub(sub(p, n), bi(1))
 	case 8:
@@ -728,7 +739,7 @@ func genSigCase(g *rand.Rand, i int) sigCase {
 		c.rc, c.r = pickR(g)
 		c.sc, c.s = pickS(g)
 		c.recid = pickRecid(g)
-		if (c.rc == "r<p-n" || c.rc == "r=p-n-1" || c.rc == "r=1..16") && g.Intn(2) == 0 {
+		if (c.rc == "r<p-n" || c.rc == "r=p-n-1" || c.rc == "r=small") && g.Intn(2) == 0 {
 			c.recid = byte(2 + g.Intn(2)) // x = r + n is below p only for these
 		}
 		c.source = "constructed"
@@ -1193,7 +1204,7 @@ func main() {
 	fl("pubkey.accepted:valid", 2000, 60000)
 	fl("pubkey.accepted:valid(tiny y)", 900, 30000)
 	fl("pubkey.accepted:valid(y near p)", 900, 30000)
-	fl("ecdh.agree:special-point", 800, 25000)
+	fl("ecdh.agree:special-point", 2400, 75000)
 	for _, c := range []string{"off-curve", "bad-prefix", "bad-length", "random-bytes", "x>=p(x-p on curve)", "x>=p(x-p off curve)"} {
 		fl("pubkey.rejected:"+c, 1000, 30000)
 	}
@@ -1212,7 +1223,7 @@ func main() {
 	for _, c := range []string{"recid>=4", "r-or-s-out-of-range", "no-curve-point-for-r", "high-s", "unrelated-key", "signer-key-but-wrong-hash", "signer-key-but-altered-signature"} {
 		fl("verify.rejected:"+c, 200, 5000)
 	}
-	for _, c := range []string{"r=0", "r=n", "r=n-1", "r=n+1", "r=p", "r=2^256-1", "r<p-n", "r=p-n", "r=p-n-1"} {
+	for _, c := range []string{"r=0", "r=n", "r=n-1", "r=n+1", "r=p", "r=2^256-1", "r<p-n", "r=p-n", "r=p-n-1", "r=small"} {
 		fl("sig.r:"+c, 60, 2000)
 	}
 	for _, c := range []string{"s=0", "s=n", "s=n-1", "s=n+1", "s=p", "s=2^256-1", "s=1", "s=floor(n/2)", "s=2^255", "s=random-high", "s=refsig-negated"} {
